@@ -996,6 +996,7 @@ pub async fn run_op(
 
 /// one random history
 pub async fn run_case(cfg: SrvCfg, rng: Rng, max_steps: usize, mode: &str) -> (CaseResult, BTreeMap<String, u64>) {
+  let panics_before = crate::PANICS.load(std::sync::atomic::Ordering::SeqCst);
   let mut srv = Srv::new(cfg.clone()).await;
   let mut g = Gen::new(rng, cfg.clone());
   if mode == "acl" {
@@ -1087,6 +1088,9 @@ pub async fn run_case(cfg: SrvCfg, rng: Rng, max_steps: usize, mode: &str) -> (C
     }
   }
   let stats = g.stats.clone();
+  if crate::PANICS.load(std::sync::atomic::Ordering::SeqCst) > panics_before {
+    oracle.failures.push("C12: [server-panic] a task of the server panicked during this history: its request is never answered, and the real server's panic hook ends the process".into());
+  }
   (CaseResult { transcript, steps, seen, oracle_failures: oracle.failures }, stats)
 }
 
